@@ -12,6 +12,9 @@ class LitePreKeyStore(PreKeyStore):
         self.dbConn = dbConn
         dbConn.execute("CREATE TABLE IF NOT EXISTS prekeys (_id INTEGER PRIMARY KEY AUTOINCREMENT,"
                        "prekey_id INTEGER UNIQUE, sent_to_server BOOLEAN, record BLOB);")
+        # highest prekey id ever stored; outlives the prekeys themselves, which are removed once consumed
+        dbConn.execute("CREATE TABLE IF NOT EXISTS prekeys_max_id (_id INTEGER PRIMARY KEY CHECK (_id = 0),"
+                       "prekey_id INTEGER);")
 
     def loadPreKey(self, preKeyId):
         q = "SELECT record FROM prekeys WHERE prekey_id = ?"
@@ -62,6 +65,7 @@ class LitePreKeyStore(PreKeyStore):
         cursor = self.dbConn.cursor()
         serialized = preKeyRecord.serialize()
         cursor.execute(q, (preKeyId, buffer(serialized) if sys.version_info < (2,7) else serialized))
+        cursor.execute("INSERT OR REPLACE INTO prekeys_max_id (_id, prekey_id) VALUES(0, ?)", (self.loadMaxPreKeyId(),))
         self.dbConn.commit()
 
     def containsPreKey(self, preKeyId):
@@ -77,7 +81,8 @@ class LitePreKeyStore(PreKeyStore):
         self.dbConn.commit()
 
     def loadMaxPreKeyId(self):
-        q = "SELECT max(prekey_id) FROM prekeys"
+        # ids must continue after the highest id handed out so far, also when those prekeys have been consumed since
+        q = "SELECT max(prekey_id) FROM (SELECT prekey_id FROM prekeys UNION ALL SELECT prekey_id FROM prekeys_max_id)"
         cursor = self.dbConn.cursor()
         cursor.execute(q)
         result = cursor.fetchone()
